@@ -19,10 +19,12 @@ Proved for ALL streams, ALL partitions into blocks, ALL edge/level/auto settings
 * per block (any trigger combination): `C02_block_edge` (sound, complete, spaced),
   `C02_block_level` (sound; complete up to one record before/after a found trigger; separated),
   `C02_block_auto_in_range`.
-Not yet proved across blocks (kept visible as `Prop`s, judged at run time by the oracle
-`chkC02` on the real code): `C02_level_complete_full`, `C02_auto_gap_full`.
+* `C02_level_complete`       the level clause across blocks (invariant `LevelInv`): every level crossing is
+                             a trigger or within one record before/after an emitted trigger.
+Not yet proved across blocks (kept visible as a `Prop`, judged at run time by the oracle `chkC02` on
+the real code): `C02_auto_gap_full`.
 -/
-import DastardV.Lemmas.EdgeGlobal
+import DastardV.Lemmas.LevelGlobal
 namespace DastardV.C02
 open Trig
 
@@ -144,21 +146,32 @@ theorem C02_block_auto_in_range (c : Chan) (hv : ValidLen c) (found : List Int)
     ∃ res, autoPass c found = some res ∧ ∀ x ∈ res, c.npre ≤ x ∧ x < hiOf c :=
   autoPass_some hv hr
 
-/-! ### Full-strength statements not yet proved across blocks (judged by `chkC02` at run time) -/
+/-! ### The level clause across blocks, and the statement not yet proved across blocks -/
 
-/-- level criterion on the ground truth -/
-def levelAtG (c : Chan) (G : List Nat) (p : Int) : Bool :=
-  match rd G p, rd G (p - 1) with
-  | some a, some b => levelCrit c a b
-  | _, _ => false
+theorem fresh_level_inv {c : Chan} {ts : TS} {npre nsamp f0 : Int} (sg : Bool) (hv : 3 ≤ npre ∧ npre < nsamp)
+    (h : Fresh c ts npre nsamp f0) : LevelInv ts npre nsamp sg 0 [] f0 c [] 0 := by
+  obtain ⟨hbuf, hts, hnpre, hnsamp, hsync, hlast⟩ := h
+  refine ⟨by simp, by simp [hbuf], ⟨hts, hnpre, hnsamp, hsync, Or.inr hbuf⟩, ?_, by simp, Or.inr hlast,
+    Or.inl (Nat.le_refl _)⟩
+  intro p h1 h2
+  simp at h1 h2
+  omega
 
-def C02_level_complete_full : Prop :=
-  ∀ (c c' : Chan) (ts : TS) (npre nsamp f0 per : Int) (sg : Bool) (zt : ZT),
-    3 ≤ npre ∧ npre < nsamp → ts.edgeMulti = false → ts.level = true → Fresh c ts npre nsamp f0 →
-    ∀ (segs : List (List Nat)) (tr : List Int), runChan zt per sg c f0 segs = some (c', tr) →
+/-- **No pulse lost (level), from the first block after a start**: every sample satisfying the level
+criterion (with `npre` samples of history and a complete post-trigger) is a trigger or lies within one
+record length before or after an emitted trigger — for all streams, all block partitions, level alone
+or combined with edge and auto triggers. -/
+theorem C02_level_complete {c c' : Chan} {ts : TS} {npre nsamp f0 per : Int} {sg : Bool} {zt : ZT}
+    (hv : 3 ≤ npre ∧ npre < nsamp) (hem : ts.edgeMulti = false) (hlevel : ts.level = true)
+    (hfresh : Fresh c ts npre nsamp f0) (segs : List (List Nat)) {tr : List Int}
+    (hrun : runChan zt per sg c f0 segs = some (c', tr)) :
     ∀ p : Int, npre ≤ p → p + (nsamp - npre) < (segs.flatten.length : Int) →
-      levelAtG (cfgChan ts sg) segs.flatten p = true →
-      ∃ T ∈ tr, T - nsamp ≤ f0 + p ∧ f0 + p ≤ T + nsamp
+      levelAtG (cfgChan ts sg) segs.flatten p = true → Near nsamp f0 tr p := by
+  have h0 := fresh_level_inv sg hv hfresh
+  obtain ⟨k', hinv⟩ := runChan_level_inv hv hem hlevel segs [] c [] 0 c' tr h0 (by simpa using hrun)
+  rw [List.nil_append, List.nil_append] at hinv
+  intro p h1 h2 h3
+  exact hinv.covered p (by simpa using h1) (by omega) h3
 
 def C02_auto_gap_full : Prop :=
   ∀ (c c' : Chan) (ts : TS) (npre nsamp f0 per : Int) (sg : Bool) (zt : ZT),
